@@ -72,18 +72,26 @@ def join (elems : List Bytes) : Bytes :=
 def cleanOutputPath (pkg ident : Bytes) : Bytes :=
   clean (join [pkg, ident])
 
+/-- `resolvedOutputPath(target, output) = filepath.Join(workspaceRoot, cleanOutputPath(target, output))`:
+    where the output is, resolved from the workspace root -/
+def resolvedOutputPath (ws pkg ident : Bytes) : Bytes :=
+  join [ws, cleanOutputPath pkg ident]
+
 /-- `pathWithin(path, dir)`: equal, or `dir + "/"` is a string prefix of `path`.
     With `dotRoot` (the tree after the fix for the directory output "."), the cleaned path "."
-    — the workspace root — contains every relative path that does not climb out of it. -/
-def pathWithin (dotRoot : Bool) (path dir : Bytes) : Bool :=
+    — the workspace root of relative paths — contains every relative path that does not climb out of it.
+    With `fsRoot` (the tree after overlaps are decided on resolved paths) the file system root "/" is
+    its own prefix with separator. -/
+def pathWithin (dotRoot fsRoot : Bool) (path dir : Bytes) : Bool :=
   path == dir ||
   (if dotRoot && dir == dot then
      !isAbs path && path != dotdot && !(dotdot ++ [cSlash]).isPrefixOf path
+   else if fsRoot && dir == [cSlash] then dir.isPrefixOf path
    else (dir ++ [cSlash]).isPrefixOf path)
 
 /-- `pathsOverlap(a, b)` -/
-def pathsOverlap (dotRoot : Bool) (a b : Bytes) : Bool :=
-  pathWithin dotRoot a b || pathWithin dotRoot b a
+def pathsOverlap (dotRoot fsRoot : Bool) (a b : Bytes) : Bool :=
+  pathWithin dotRoot fsRoot a b || pathWithin dotRoot fsRoot b a
 
 /-- `pathTriesToEscape(rel)`: the cleaned path is `..` or starts with `../` -/
 def triesToEscape (p : Bytes) : Bool :=
